@@ -152,10 +152,12 @@ def check_gauss(path):
         if fn is None:
             res['error'] = 'leggauss_quad not found'
             return res
-        tree = fn.tree()
-        if len(tree) != 1 or tree[0][0] != 'switch':
+        tree = [t for t in fn.tree() if t[0] != 'decl']
+        # a single switch, possibly followed by the function's plain `return;`
+        if not tree or tree[0][0] != 'switch' or any(t[0] != 'return' or t[1] is not None for t in tree[1:]):
             res['error'] = 'leggauss_quad is not a single switch'
             return res
+        trailing_return = len(tree) > 1
         pnames = [n for t, n in fn.params if '*' in t or '*' in n]
         decimal.getcontext().prec = 110
         D = decimal.Decimal
@@ -181,11 +183,11 @@ def check_gauss(path):
                     if idx in tgt:
                         res['bad'].append((n, sl, '%s[%d] assigned twice' % (name, idx))); ok = False
                     tgt[idx] = val
-                elif st[0] == 'return':
+                elif st[0] == 'return' or (st[0] == 'break' and trailing_return):
                     pass
                 else:
                     res['bad'].append((n, st[-1], 'unexpected statement')); ok = False
-            if not body or body[-1][0] != 'return':
+            if not body or not (body[-1][0] == 'return' or (body[-1][0] == 'break' and trailing_return)):
                 res['bad'].append((n, line, 'case %d does not end in return (falls through)' % n)); ok = False
             if sorted(pts) != list(range(n)) or sorted(wts) != list(range(n)):
                 res['bad'].append((n, line, 'case %d assigns points %s.. weights %s.., need 0..%d each' % (n, len(pts), len(wts), n - 1)))
@@ -234,7 +236,25 @@ def check_functions(path):
                     for (i,), (rng, line) in entries.items():
                         got[i] = (fn.expand(rng).t, line)
                 else:
-                    for st in fn.tree():
+                    tree_ = [t for t in fn.tree() if t[0] != 'decl']
+                    scalar = funcs.get(name.replace('calc_vec_', 'calc_'))
+                    if len(tree_) == 1 and tree_[0][0] == 'for' and scalar is not None:
+                        # the vector form loops over the scalar function: out[i] = calc_x(i, xi, flags...) for i in 0..NMAX-1
+                        _, var, lo, bound, body_, fline = tree_[0]
+                        nb = ctab.defines(os.path.join(REPO, path)).get(bound, int(bound) if bound.isdigit() else None)
+                        okf = lo == '0' and nb == bardell.NMAX and len(body_) == 1 and body_[0][0] == 'storev' and body_[0][2] == var
+                        if okf:
+                            toks_ = [t[1] for t in fn.toks[body_[0][3][0]:body_[0][3][1]]]
+                            want_ = [scalar.name, '(', var] + [x for v_ in fn.vars for x in (',', v_)] + [')']
+                            okf = toks_ == want_ and scalar.vars == fn.vars
+                        if not okf:
+                            res['bad'].append((name, -1, fline, 'loop form is not out[i] = %s(i, %s) for i in 0..%d' % (scalar.name, ', '.join(fn.vars), bardell.NMAX - 1)))
+                        else:
+                            ent_, _d = ctab.switch_table(scalar, 1)
+                            for (i_,), (rng_, line_) in ent_.items():
+                                got[i_] = (scalar.expand(rng_).t, fline)
+                        tree_ = []
+                    for st in tree_:
                         if st[0] != 'store':
                             res['bad'].append((name, -1, st[-1], 'unexpected statement in array form'))
                             continue
